@@ -1,5 +1,7 @@
 package main
 
+import "fmt"
+
 // Oracle evaluates a property directly on the real library (no model involved).
 type Oracle struct {
 	prop  string
@@ -9,7 +11,48 @@ type Oracle struct {
 
 func newOracle(prop string, g *gen) *Oracle { return &Oracle{prop: prop, g: g} }
 
+// isSublist reports whether a is a (not necessarily contiguous) subsequence of b.
+func isSublist(a, b []string) bool {
+	i := 0
+	for _, x := range b {
+		if i < len(a) && a[i] == x {
+			i++
+		}
+	}
+	return i == len(a)
+}
+
 // check returns a non-empty description when the property is violated by the real outcome of c
 func (o *Oracle) check(c *Case, r *RealOut) string {
+	if r == nil || r.Timeout || r.Panic != "" || r.DefPanic != "" {
+		return ""
+	}
+	switch o.prop {
+	case "C03":
+		// conservation, decided on the implementation alone: whenever Parse succeeds the remaining list
+		// is a positional sub-sequence of argv
+		if c.Comp {
+			return ""
+		}
+		o.evals++
+		if !r.HasErr && !r.RemNil && !isSublist(r.Rem, c.Args) {
+			return fmt.Sprintf("remaining %q is not a sub-sequence of argv %q", r.Rem, c.Args)
+		}
+	case "C20":
+		// determinism, decided on the implementation alone: the definition is rebuilt (fresh maps, fresh
+		// iteration orders) and run again on the same input
+		o.evals++
+		r2 := runReal(c)
+		if a, b := fmt.Sprintf("%+v", *r), fmt.Sprintf("%+v", *r2); a != b {
+			return "two runs of the same definition on the same input differ:\n  first:  " + clip(a, 1500) + "\n  second: " + clip(b, 1500)
+		}
+	}
 	return ""
+}
+
+func clip(s string, n int) string {
+	if len(s) > n {
+		return s[:n] + "…"
+	}
+	return s
 }
